@@ -10,6 +10,9 @@ import (
 
 // Run executes one simulated run of world W2 for one property.
 func Run(prop, tier string, c *core.Choices, trace bool) *harness.RunResult {
+	if prop == "C13" {
+		return runC13(c, trace)
+	}
 	s := core.NewSim(c)
 	s.TraceOn = trace
 	s.MaxSteps = 40000
@@ -23,6 +26,12 @@ func Run(prop, tier string, c *core.Choices, trace bool) *harness.RunResult {
 	}
 	w.StartProcess()
 	s.Loop()
+	// end-state digest into the determinism hash: files, NAT table, bound ports, number of plugin invocations
+	inv := 0
+	for _, c := range w.conts {
+		inv += len(c.Invs)
+	}
+	s.Note(fmt.Sprintf("end-%016x-%d-%d", strSum(w.FS.Dump()+w.Kern.Save("nat")), len(w.Net.Sockets()), inv))
 	res := &harness.RunResult{Viol: s.Viol, Key: w.key, Infra: s.Infra, Stats: s.Stats, Steps: s.Steps, SimNanos: core.ClockNanos(), Hash: s.Hash(), States: w.states}
 	if s.OutOfSteps && s.Viol == nil && res.Infra == "" {
 		res.Infra = "step budget exhausted before quiescence"
@@ -61,6 +70,7 @@ func Run(prop, tier string, c *core.Choices, trace bool) *harness.RunResult {
 	case "C17":
 		res.Nontrivial = res.Stats["probe.gc-removal"] > 0 || res.Stats["fault.runtime.err"]+res.Stats["fault.runtime.down.inspect"] > 0
 	}
+	res.States = append(res.States, fmt.Sprintf("chains=%d files=%d socks=%d", len(w.Kern.Tables["nat"].Chains), len(w.FS.Paths())/4, len(w.Net.Sockets())))
 	res.Summary = w.cfg.Summary + " ops=" + strings.Join(w.summary, ",")
 	return res
 }
